@@ -175,7 +175,9 @@ def tucker_als(  # noqa: PLR0912, PLR0913, PLR0915
     solution = ttensor(core, U, copy=False)
 
     output = {
-        "params": (stoptol, maxiters, printitn, dimorder),
+        # (the mode order echoed as a copy: the caller's array must not be reachable
+        # through the result)
+        "params": (stoptol, maxiters, printitn, np.array(dimorder)),
         "iters": iteration,
         "normresidual": normresidual,
         "fit": fit,
